@@ -4,7 +4,7 @@
 From Coq Require Import ZArith Bool String Ascii.
 From Coq Require Import List.
 Import ListNotations.
-Require Import MV.Lib.Base MV.C04.Gen MV.C04.Model.
+Require Import MV.Lib.Base MV.C04.Gen MV.C04.Model MV.C04.Geo MV.C04.Stl.
 Open Scope list_scope.
 Open Scope Z_scope.
 
@@ -25,6 +25,21 @@ Definition zraw := raw Z (Z * Z).
 Definition zattr := attr Z (Z * Z).
 Definition zsattr := sattr Z (Z * Z).
 Definition zaval := aval Z (Z * Z).
+
+(* monomorphic constructors: the case files elaborate several times faster with them *)
+Definition tI : Z -> ztok := @TInt Z (Z * Z).
+Definition tF : Z -> ztok := @TFlt Z (Z * Z).
+Definition tC : Z * Z -> ztok := @TCx Z (Z * Z).
+Definition tW : string -> ztok := @TWord Z (Z * Z).
+Definition vB : bool -> zaval := @VBool Z (Z * Z).
+Definition vI : Z -> zaval := @VInt Z (Z * Z).
+Definition vF : Z -> zaval := @VFloat Z (Z * Z).
+Definition vC : Z * Z -> zaval := @VCx Z (Z * Z).
+Definition vS : string -> zaval := @VStr Z (Z * Z).
+Definition zmkmesh := @mkmesh Z (Z * Z).
+Definition zmkraw := @mkraw Z (Z * Z).
+Definition zmkattr := @mkattr Z (Z * Z).
+Definition zmksattr := @mksattr Z (Z * Z).
 
 Definition pair_eqb (a b : Z * Z) : bool := (fst a =? fst b) && (snd a =? snd b).
 
@@ -63,7 +78,16 @@ Definition oraw_eqb (a b : option zraw) : bool :=
 Definition ostr_eqb (a b : option string) : bool :=
   match a, b with Some x, Some y => String.eqb x y | None, None => true | _, _ => false end.
 
-Inductive fmt := Fxyz | Fobj | Foff | Ftet | Fmedit.
+Inductive fmt := Fxyz | Fobj | Foff | Ftet | Fmedit | Fgeo.
+
+(* x == 0.0 on bit patterns (both zeros), z == 0j *)
+Definition bits_is_zero (b : Z) : bool := (b =? 0) || (b =? 2 ^ 63).
+Definition cbits_is_zero (c : Z * Z) : bool := bits_is_zero (fst c) && bits_is_zero (snd c).
+Definition zsave_geo (m : zmesh) : option (list ztok) := @save_geo Z Z (Z * Z) (Z * Z) idZ idC m.
+Definition zprint_geo (m : zmesh) : list ztok := @print_geo Z Z (Z * Z) (Z * Z) idZ idC m.
+Definition zparse_geo (l : list ztok) : option zraw :=
+  @parse_geo Z Z (Z * Z) (Z * Z) idZ bits_of_int idC cx_of_bits bits_is_zero cbits_is_zero l.
+Definition zvocab_geo (m : zmesh) : zraw := @vocab_geo Z (Z * Z) bits_is_zero cbits_is_zero m.
 
 Definition print_fmt (f : fmt) (sw : switches) (m0 : zmesh) : option (list zline) :=
   let m := apply_ignore sw m0 in
@@ -73,6 +97,7 @@ Definition print_fmt (f : fmt) (sw : switches) (m0 : zmesh) : option (list zline
   | Foff => Some (@print_off Z Z (Z * Z) (Z * Z) idZ m)
   | Ftet => Some (@print_tet Z Z (Z * Z) (Z * Z) idZ m)
   | Fmedit => @print_medit Z Z (Z * Z) (Z * Z) idZ m
+  | Fgeo => if forallb (len_is 4) (mC m0) then Some (map (fun t => [t]) (zprint_geo m)) else None
   end.
 
 Definition parse_fmt (f : fmt) (ls : list zline) : option zraw :=
@@ -82,6 +107,7 @@ Definition parse_fmt (f : fmt) (ls : list zline) : option zraw :=
   | Foff => @parse_off Z Z (Z * Z) (Z * Z) idZ bits_of_int ls
   | Ftet => @parse_tet Z Z (Z * Z) (Z * Z) idZ bits_of_int ls
   | Fmedit => @parse_medit Z Z (Z * Z) (Z * Z) idZ bits_of_int ls
+  | Fgeo => zparse_geo (concat ls)
   end.
 
 Definition vocab_fmt (f : fmt) (sw : switches) (m0 : zmesh) : option zraw :=
@@ -92,6 +118,7 @@ Definition vocab_fmt (f : fmt) (sw : switches) (m0 : zmesh) : option zraw :=
   | Foff => Some (vocab_off m)
   | Ftet => Some (vocab_tet m)
   | Fmedit => vocab_medit m
+  | Fgeo => Some (zvocab_geo m)
   end.
 
 (* save: the file mouette wrote (tokenised), or None when save raised *)
@@ -120,4 +147,32 @@ Definition check_roundtrip (c : fmt * switches * zmesh) : bool :=
   match print_fmt f sw m with
   | Some ls => oraw_eqb (parse_fmt f ls) (vocab_fmt f sw m)
   | None => true
+  end.
+
+(* ---- binary STL: a coordinate is (binary64 pattern, binary32 pattern of its rounding or -1 when out of range) *)
+Definition smesh := mesh (Z * Z) (Z * Z).
+Definition szmkmesh := @mkmesh (Z * Z) (Z * Z).
+Definition sfld := sfield Z.
+Definition sH : string -> sfld := @SHeader Z.
+Definition sU32 : Z -> sfld := @SU32 Z.
+Definition sF : Z -> sfld := @SF32 Z.
+Definition sU16 : Z -> sfld := @SU16 Z.
+Definition to32_pair (x : Z * Z) : option Z := if snd x <? 0 then None else Some (snd x).
+Definition zprint_stl (m : smesh) : option (list sfld) := @print_stl (Z * Z) (Z * Z) Z to32_pair 0 m.
+Definition sfield_eqb (a b : sfld) : bool :=
+  match a, b with
+  | SHeader x, SHeader y => String.eqb x y
+  | SU32 x, SU32 y | SF32 x, SF32 y | SU16 x, SU16 y => x =? y
+  | _, _ => false
+  end.
+Definition soup_eqb := list_eqb (list_eqb (list_eqb Z.eqb)).
+(* the bytes mouette wrote (as fields; None = save raised) and the soup an independent reader of the bytes found *)
+Definition check_stl (c : smesh * option (list sfld) * option (list (list (list Z)))) : bool :=
+  let '(m, obs, soup) := c in
+  match zprint_stl m, obs with
+  | Some a, Some b =>
+      list_eqb sfield_eqb a b &&
+      match @ref_parse_stl Z b, soup with Some x, Some y => soup_eqb x y | None, None => true | _, _ => false end
+  | None, None => true
+  | _, _ => false
   end.
